@@ -393,19 +393,25 @@ def run_rot(c):
     mats = []
     since_clear = 0
     last_n = None
-    for o in c["ops"]:
-        if o["op"] == "clear":
-            rot.clear_rotation()
-            Racc = np.eye(3)
-            since_clear = 0
-            mats.append(None)
-        else:
-            M = step_matrix(o)
-            call_rotate(rot, o, c.get("style", True))
-            Racc = M @ Racc
-            since_clear += 1
-            last_n = o.get("n")
-            mats.append(M)
+    try:
+        for o in c["ops"]:
+            if o["op"] == "clear":
+                rot.clear_rotation()
+                Racc = np.eye(3)
+                since_clear = 0
+                mats.append(None)
+            else:
+                M = step_matrix(o)
+                call_rotate(rot, o, c.get("style", True))
+                Racc = M @ Racc
+                since_clear += 1
+                last_n = o.get("n")
+                mats.append(M)
+    except Exception as e:  # noqa: BLE001 - a supported field and a valid rotation must not be refused
+        rec["oracle"].append("rotation-of-supported-field-raised")
+        rec.update(obs=dict(error=type(e).__name__), key=f"{c['kind']}/raised", size=len(fc["vals"]) * 10 + len(c["ops"]),
+                   nontrivial=True)
+        return rec
     out = rot.field
     on = [int(x) for x in out.mesh.n]
     opmin, opmax = out.mesh.region.pmin, out.mesh.region.pmax
@@ -459,10 +465,11 @@ def run_rot(c):
             rec["oracle"].append("outside-not-zero")
         rec["interior"], rec["outside"] = interior, outside
         # composition: one fresh rotator, one rotation by the accumulated matrix
-        fresh = df.FieldRotator(build(fc))
-        fresh.rotate("from_matrix", Racc, n=tuple(on))
-        g2 = fresh.field
-        if (np.abs(np.asarray(g2.mesh.region.pmin) - opmin).max() > 1e-8 * cscale
+        st, g2 = attempt(lambda: (lambda fr_: (fr_.rotate("from_matrix", Racc, n=tuple(on)), fr_.field)[1])(
+            df.FieldRotator(build(fc))))
+        if st != "ok":
+            rec["oracle"].append("rotation-of-supported-field-raised")
+        elif (np.abs(np.asarray(g2.mesh.region.pmin) - opmin).max() > 1e-8 * cscale
                 or np.abs(np.asarray(g2.mesh.region.pmax) - opmax).max() > 1e-8 * cscale):
             rec["oracle"].append("composition-region")
         else:
